@@ -130,8 +130,9 @@ def minimise(engine, prop, runs, clause, tier, max_trials=250, max_wall=150):
             return still(runs[:-1] + [cand])
         # the failing op is the last executed one: keep it, shrink the prefix
         ops = last["ops"]
-        tail = ops[-1:]
-        head = ddmin_list(ops[:-1], lambda c: test_ops(c + tail), budget)
+        tail = ops[-1:] if getattr(engine, "KEEP_TAIL", False) else []
+        head = ddmin_list(ops[:len(ops) - len(tail)],
+                          lambda c: test_ops(c + tail), budget)
         last["ops"] = head + tail
         runs = runs[:-1] + [last]
     # 3. engine-specific simplifications
@@ -257,12 +258,19 @@ def run_check(engine, prop, tier, root, n_runs=None):
                 core.jsonable(r.get("trace"))))
         if "sut_error" in r:
             sut_errors += 1
+        for fid, n in (r.get("known_hits") or {}).items():
+            for _ in range(n):
+                known.hit(fid)
         if "violation" in r:
             fid = known.match(r)
             if fid:
                 known.hit(fid)
             else:
                 viols.append(r)
+        if "violation" in r and r.get("known") and not known.match(r):
+            # the worker treated it as known but the directed run says the
+            # finding is repaired: report it (chunk successors were run too)
+            pass
         if len(samples) < 2 and r.get("trace") and r.get("ops", 0) > 0:
             samples.append(_sample(r))
     replay = None
